@@ -110,6 +110,24 @@ CHECKS["C10"] = ("exploration",
     "positivity, all moments 0..2n-1 against closed forms, tanh-sinh pairs against the double-exponential formula",
     "Exhaustive over the finite data (251 Gaussian rows, 7 tanh-sinh levels, ~11,000 pairs).",
     TRUST + " Moments to relative 2e-10 (precision of the shipped digits on the largest rows).", "DESIGN.md §4 C10")
+CHECKS["C14"] = ("exploration",
+    "polynomials built from known separated roots (lattice + seeded) and orthogonal-polynomial zeros; TLC (Val_C14, PolyRoots/OrthoPoly) checks "
+    "count, residuals, one-to-one matching with the generating roots, and sign-change brackets of the exact polynomials",
+    "Completeness and accuracy of the returned multiset are stated against the generating roots; exploration over shapes, no proof of "
+    "convergence of Laguerre/deflation/polishing.",
+    TRUST, "DESIGN.md §4 C14")
+CHECKS["C16"] = ("exploration",
+    "splines on lattice and seeded knots probed on both sides of every knot and inside every piece; TLC (Val_C16, Spline) checks the "
+    "characterisation of the unique free/clamped spline (interpolation, C1, C2 via Hermite data, end conditions, reproduction, error cases)",
+    "By the uniqueness theorem the characterisation is equivalent to coinciding with the independently defined spline; it is evaluated by "
+    "TLC on every recorded spline.",
+    TRUST, "DESIGN.md §4 C16")
+CHECKS["C17"] = ("exploration",
+    "linear_fit on all permutations of small integer data sets + seeded data (normal equations checked by TLC); Levenberg-Marquardt runs with "
+    "a counting model closure judged by TLC (Val_C17, Fit) against the normal-equation solution / the generating parameters",
+    "Exhaustive small scope for linear_fit, exploration for LM. curve_fit (finite-difference variant) has a known, unfixable-under-the-rules "
+    "defect listed in known-findings.txt; curve_fit_jac and linear_fit are checked with full force.",
+    TRUST, "DESIGN.md §4 C17")
 
 NOT_YET = {}
 
